@@ -8,6 +8,7 @@
      [t |-> "cat"|"alt", a |-> r, b |-> r]
      [t |-> "star"|"plus"|"opt", a |-> r]
      [t |-> "bol"] / [t |-> "eol"]        ^ / $ without the m flag: beginning / end of the subject
+     [t |-> "cap", name |-> bytes, a |-> r]   (?P<name>r): matches as r and records where
    Subjects are arbitrary byte strings; "any" and negated classes consume one rune as Go decodes it. *)
 EXTENDS Integers, Sequences, Utf8
 
@@ -33,6 +34,7 @@ Ends(r, s, i) ==
     [] r.t = "opt"  -> {i} \cup Ends(r.a, s, i)
     [] r.t = "bol"  -> IF i = 1 THEN {i} ELSE {}
     [] r.t = "eol"  -> IF i = Len(s) + 1 THEN {i} ELSE {}
+    [] r.t = "cap"  -> Ends(r.a, s, i)
 
 FullMatch(r, s) == (Len(s) + 1) \in Ends(r, s, 1)           \* ^(?:r)$
 Search(r, s)    == \E i \in 1..(Len(s) + 1) : Ends(r, s, i) # {}   \* unanchored
@@ -54,6 +56,7 @@ ReText(r) ==
     [] r.t = "opt"  -> Grp(ReText(r.a)) \o <<63>>
     [] r.t = "bol"  -> <<94>>
     [] r.t = "eol"  -> <<36>>
+    [] r.t = "cap"  -> <<40, 63, 80, 60>> \o r.name \o <<62>> \o ReText(r.a) \o <<41>>      \* (?P<name>...)
 
 \* handy constructors
 RLit(x) == [t |-> "lit", c |-> x]
@@ -68,4 +71,60 @@ RCls(S) == [t |-> "cls", set |-> S, neg |-> FALSE]
 RNCls(S) == [t |-> "cls", set |-> S, neg |-> TRUE]
 RBol == [t |-> "bol"]
 REol == [t |-> "eol"]
+RCap(n, a) == [t |-> "cap", name |-> n, a |-> a]
+
+(* ---- submatches: leftmost-first, as Go's regexp (and Perl) choose them.
+   Prio(r, s, i) lists the ways r can match at position i in the order a backtracking matcher tries them: the left
+   alternative first, a repetition or an option greedily.  Each way is [e |-> end position, c |-> captures], captures a
+   set of <<name, begin, end>> with one triple per group that took part (a later iteration of a repetition replaces an
+   earlier one; a group that does not take part in a later iteration keeps its earlier value).
+   The match of an unanchored search is the best way at the leftmost position that has one.
+   Repetition bodies must not match the empty string (NonNullableReps): RE2 simplifies empty iterations in ways this
+   transcription does not follow. *)
+Over(c1, c2) == {t \in c1 : \A u \in c2 : u[1] # t[1]} \cup c2
+RECURSIVE ConcatAll(_)
+ConcatAll(ss) == IF ss = <<>> THEN <<>> ELSE Head(ss) \o ConcatAll(Tail(ss))
+RECURSIVE Prio(_, _, _)
+RECURSIVE PrioStar(_, _, _)
+PrioStar(a, s, i) ==
+  LET pa == Prio(a, s, i) IN
+  ConcatAll([k \in DOMAIN pa |->
+               IF pa[k].e = i THEN <<>>
+               ELSE LET rest == PrioStar(a, s, pa[k].e) IN [m \in DOMAIN rest |-> [e |-> rest[m].e, c |-> Over(pa[k].c, rest[m].c)]]])
+  \o << [e |-> i, c |-> {}] >>
+Prio(r, s, i) ==
+  CASE r.t \in {"eps", "lit", "any", "cls", "bol", "eol"} ->
+         LET E == Ends(r, s, i) IN IF E = {} THEN <<>> ELSE << [e |-> CHOOSE x \in E : TRUE, c |-> {}] >>
+    [] r.t = "cap"  -> LET pa == Prio(r.a, s, i) IN [k \in DOMAIN pa |-> [e |-> pa[k].e, c |-> Over(pa[k].c, {<<r.name, i, pa[k].e>>})]]
+    [] r.t = "cat"  -> LET pa == Prio(r.a, s, i) IN
+                       ConcatAll([k \in DOMAIN pa |-> LET pb == Prio(r.b, s, pa[k].e) IN [m \in DOMAIN pb |-> [e |-> pb[m].e, c |-> Over(pa[k].c, pb[m].c)]]])
+    [] r.t = "alt"  -> Prio(r.a, s, i) \o Prio(r.b, s, i)
+    [] r.t = "opt"  -> Prio(r.a, s, i) \o << [e |-> i, c |-> {}] >>
+    [] r.t = "star" -> PrioStar(r.a, s, i)
+    [] r.t = "plus" -> LET pa == Prio(r.a, s, i) IN
+                       ConcatAll([k \in DOMAIN pa |-> LET rest == PrioStar(r.a, s, pa[k].e) IN [m \in DOMAIN rest |-> [e |-> rest[m].e, c |-> Over(pa[k].c, rest[m].c)]]])
+\* FindStringSubmatch: [found, b, e, c]
+FirstMatch(r, s) ==
+  LET starts == {i \in 1..(Len(s) + 1) : Prio(r, s, i) # <<>>} IN
+  IF starts = {} THEN [found |-> FALSE, b |-> 0, e |-> 0, c |-> {}]
+  ELSE LET i == CHOOSE i \in starts : \A j \in starts : i <= j
+           p == Prio(r, s, i)[1]
+       IN [found |-> TRUE, b |-> i, e |-> p.e, c |-> p.c]
+\* group names in the order of their opening parentheses
+RECURSIVE CapNames(_)
+CapNames(r) == CASE r.t = "cap" -> <<r.name>> \o CapNames(r.a)
+                 [] r.t \in {"cat", "alt"} -> CapNames(r.a) \o CapNames(r.b)
+                 [] r.t \in {"star", "plus", "opt"} -> CapNames(r.a)
+                 [] OTHER -> <<>>
+RECURSIVE Nullable(_)
+Nullable(r) == CASE r.t \in {"eps", "bol", "eol", "star", "opt"} -> TRUE
+                 [] r.t \in {"lit", "any", "cls"} -> FALSE
+                 [] r.t \in {"cap", "plus"} -> Nullable(r.a)
+                 [] r.t = "cat" -> Nullable(r.a) /\ Nullable(r.b)
+                 [] r.t = "alt" -> Nullable(r.a) \/ Nullable(r.b)
+RECURSIVE NonNullableReps(_)
+NonNullableReps(r) == CASE r.t \in {"star", "plus"} -> ~Nullable(r.a) /\ NonNullableReps(r.a)
+                        [] r.t \in {"cap", "opt"} -> NonNullableReps(r.a)
+                        [] r.t \in {"cat", "alt"} -> NonNullableReps(r.a) /\ NonNullableReps(r.b)
+                        [] OTHER -> TRUE
 =============================================================================
